@@ -24,7 +24,9 @@ ANSI = re.compile(r"\x1b\[[0-9;]*m")
 def plan(tier, seed):
     P = layout.pinned()
     names = sorted(n for n, d in P["types"].items() if d["kind"] == "prim" and "bits" in d)
-    return [dict(name=n, type=n) for n in names]
+    # one more shard prints words of all types in one process, the same numeric values back to back in both
+    # orders of width: a printer that carries state from one word to the next (caches, shared buffers) shows here
+    return [dict(name=n, type=n) for n in names] + [dict(name="mixed-types", type=None, types=names)]
 
 
 def values_for(d, rng, tier):
@@ -123,9 +125,28 @@ def check_value(tn, T, d, live, v, rec, printed=True):
     rec.count("rows_checked", len(rows))
 
 
+def run_mixed(shard, rec):
+    from ..trace import type_by_name
+
+    P = layout.pinned()["types"]
+    rng = random.Random(f"{shard.get('seed', 0)}:C17:mixed")
+    types = [(tn, type_by_name(tn), P[tn]) for tn in shard["types"]]
+    lives = {tn: {a._name: int(a._value) for a in T(0).attributes()} for tn, T, d in types}
+    vals = list(range(0, 256)) if shard.get("tier") == "thorough" else sorted(set(list(range(0, 40)) + [0x40, 0x60, 0x80, 0xC0, 0xE0, 0xFF] + [rng.randrange(256) for _ in range(20)]))
+    for v in vals:
+        order = list(types)
+        rng.shuffle(order)
+        for tn, T, d in order + order[::-1]:
+            check_value(tn, T, d, lives[tn], v, rec)
+    rec.count("mixed_sequences", len(vals))
+
+
 def run_shard(shard, rec):
     from ..trace import type_by_name
 
+    if shard["type"] is None:
+        run_mixed(shard, rec)
+        return
     tn = shard["type"]
     d = layout.pinned()["types"][tn]
     T = type_by_name(tn)
@@ -143,6 +164,8 @@ def finish(m, tier):
     inc = []
     if m["counters"].get("types", 0) != 12:
         inc.append(f"{m['counters'].get('types', 0)} attribute types checked, expected 12")
+    if not m["counters"].get("mixed_sequences"):
+        inc.append("the mixed-type sequence was not run")
     if not m["counters"].get("rows_checked"):
         inc.append("no printed bit row was checked")
     return dict(inconclusive=inc, coverage=dict(explanation="masks exhaustive for all 12 types; values exhaustive for the 8-bit types"))
